@@ -82,10 +82,25 @@ func TestCorpus(t *testing.T) {
 	}
 	var full, unsup, expected, bad int
 	unsupKinds := map[string]int{}
+	extKinds := map[string]int{}
+	var nObjects, nAttrs, nRaw, nRawBytes int
 	for _, p := range files {
 		r := decodeCorpusFile(p)
 		rel, _ := filepath.Rel(repoTestdata, p)
 		why, isExpected := expectedInvalidReason(rel)
+		if r.f != nil && (r.err == nil || indep.IsUnsupported(r.err)) {
+			for _, e := range r.f.Extents {
+				extKinds[e.Kind]++
+			}
+			for _, o := range r.f.Objects {
+				nObjects++
+				nAttrs += len(o.Attrs)
+				if o.Raw != nil {
+					nRaw++
+					nRawBytes += len(o.Raw)
+				}
+			}
+		}
 		switch {
 		case r.err == nil:
 			if len(r.f.Deviations) != 0 {
@@ -125,6 +140,12 @@ func TestCorpus(t *testing.T) {
 		}
 	}
 	t.Logf("corpus: %d files; %d decode fully, %d stop at unsupported, %d are known-invalid test inputs (rejected as expected), %d unexplained", len(files), full, unsup, expected, bad)
+	var es []string
+	for k, n := range extKinds {
+		es = append(es, fmt.Sprintf("%s=%d", k, n))
+	}
+	sort.Strings(es)
+	t.Logf("decoded: %d objects, %d attributes, %d datasets with assembled raw data (%d bytes); structures by kind: %s", nObjects, nAttrs, nRaw, nRawBytes, strings.Join(es, " "))
 	var ks []string
 	for k, n := range unsupKinds {
 		ks = append(ks, fmt.Sprintf("%4d  %s", n, k))
